@@ -11,7 +11,29 @@ import ast
 import re
 
 from .core import AnalysisError, U
-from .guards import Flow, ForkInterp, Interp, Unknown, _NeedDecision
+from .guards import Flow, ForkInterp, Interp, Obj, Unknown, _NeedDecision
+
+
+class Vec(tuple):
+    """Model of a small numeric array: element-wise + and -, scalar * and /."""
+
+    def __add__(self, other):
+        return Vec(a + b for a, b in zip(self, other))
+
+    def __sub__(self, other):
+        return Vec(a - b for a, b in zip(self, other))
+
+    def __mul__(self, k):
+        return Vec(a * k for a in self)
+
+    __rmul__ = __mul__
+
+    def __truediv__(self, k):
+        return Vec(a / k for a in self)
+
+    def norm(self):
+        import math
+        return math.sqrt(sum(a * a for a in self))
 
 
 class Match(dict):
@@ -72,7 +94,7 @@ class ObjRunner:
 
     # ------------------------------------------------------------------ calls
     def new(self, clsname, *args, **kw):
-        obj = {"__class__": clsname}
+        obj = Obj({"__class__": clsname})
         if self.find(clsname, "__init__") is not None:
             self.call(obj, "__init__", *args, **kw)
         return obj
@@ -224,6 +246,11 @@ class ObjRunner:
                 return getattr(__import__("math"), name[5:])(*args)
             except (ValueError, OverflowError) as exc:
                 raise Flow("raise", f"{type(exc).__name__}({str(exc)!r})", call) from None
+        if name in ("np.array", "numpy.array", "np.asarray") and len(args) == 1 and isinstance(args[0], (list, tuple)) \
+                and all(isinstance(x, (int, float)) for x in args[0]):
+            return Vec(args[0])
+        if name in ("np.linalg.norm", "numpy.linalg.norm") and len(args) == 1 and isinstance(args[0], Vec):
+            return args[0].norm()
         if name in ("re.compile",) and args and isinstance(args[0], str):
             return {"__class__": "re.Pattern", "pattern": args[0], "flags": args[1] if len(args) > 1 else 0}
         if name in ("re.match", "re.fullmatch", "re.search") and len(args) >= 2 and all(isinstance(a, str) for a in args[:2]):
